@@ -1,5 +1,6 @@
 """C18 implementation side: SigmaCIDRExpression validation / expand, and the conversion of a
 `field|cidr` item by a backend with and without a native CIDR expression."""
+from impl.excname import exc_name
 import ipaddress
 from typing import ClassVar
 from sigma.types import SigmaCIDRExpression
@@ -63,7 +64,7 @@ def _conv(backend, s):
         q = backend.convert_rule(_rule(s))
         return {"q": q[0] if len(q) == 1 else q}
     except Exception as e:  # noqa
-        return {"exc": type(e).__name__, "sigma": isinstance(e, SigmaError)}
+        return {"exc": exc_name(e), "sigma": isinstance(e, SigmaError)}
 
 
 def run_native(case):
